@@ -364,8 +364,9 @@ def redefinition_stream(ck, rng, n_regs, oracle, tag):
 # ---------------------------------------------------------------- aliases added at run time, after earlier lookups
 def runtime_alias_stream(ck, rng, n_regs, oracle, tag):
     """A registry that was already asked about the prefixed / plural spellings of a name that did not exist yet,
-    and is then given `@alias unit = name` at run time, must convert those spellings like a registry that read
-    the alias line in its definition file (B) — whose factors are compared with the Coq model of B's text."""
+    and is then given `@alias unit = name` lines and new unit definitions (decimal and ratio factors) through
+    define() at run time, must convert those spellings like a registry that read the same lines in its definition
+    file (B) — whose factors are compared with the Coq model of B's text. Exact type included (Fraction registry)."""
     import pint
     total, nbad, first = 0, 0, None
     for gi in range(n_regs):
@@ -376,6 +377,16 @@ def runtime_alias_stream(ck, rng, n_regs, oracle, tag):
             added.append((nm, f"zq{gi}n{j}"))
         A = _load_text(lines)
         alias_lines = [f"@alias {nm} = {al}" for nm, al in added]
+        # ... and brand-new UNITS written with decimal / ratio factors, given to define() at run time
+        unit_names = []
+        for j in range(rng.randint(1, 2)):
+            ref = rng.choice(cand)
+            fac = rng.choice(["1.7018", "1 / 3", "0.3048", "2.5e-3", "7 / 12", "1.1"])
+            un = f"zu{gi}n{j}"
+            alias_lines.append(f"{un} = {fac} * {ref} = zs{gi}n{j}")
+            unit_names.append(un)
+            added.append((ref, un))
+            added.append((ref, f"zs{gi}n{j}"))
         B, raw_b = load_generated(lines + alias_lines)
         pre = ["", "kilo", "milli", "mega", "demi", "semi", "k", "m", "M"]
         derived = [p + al + pl for _, al in added for p in pre for pl in ("", "s")]
